@@ -1,12 +1,13 @@
+\* deeper: generations 0..3, four harness actions, the two quick configurations
 SPECIFICATION Spec
 CONSTANTS Kinds = {"DE", "DE2", "NM", "PW"}
   NP = 2
-  MaxGen = 2
+  MaxGen = 3
   MaxInst = 3
-  MaxCells = 10
+  MaxCells = 12
   Settings <- QSettings
   Design = "ok"
-  MaxOps = 3
+  MaxOps = 4
 INVARIANT TypeOK
 INVARIANT ResumeEquivalence
 INVARIANT CopyCounts
